@@ -111,8 +111,11 @@ co_harness! {
 }
 
 fn day_costs(day: time::Date, total: i64) -> MaxSingleDayCosts {
+    // only the day's total matters to the yearly choice; the per-security map
+    // stays empty (cloning a map with String keys selected by a symbolic date
+    // is what exhausted 24 GB in the first version of this harness)
     let mut m = MaxSingleDayCosts::new(day);
-    m.observe_new_cost(&"A".to_string(), gez(total, 2));
+    m.total = gez(total, 2);
     m
 }
 
